@@ -142,6 +142,20 @@ func C04(sp *spec.Spec, ex *rt.Exchange) *Verdict {
 			}
 			return v
 		}
+		if resp != nil {
+			// a violation sitting in an attribute the selected response does not carry (explicit body) never
+			// reaches the client: nothing to refuse
+			carried := false
+			for _, vi := range viol {
+				if cases.RespCarried(resp, topAttr(vi.Path)) {
+					carried = true
+				}
+			}
+			if !carried {
+				v.Inconclusive = "the violating attribute is not carried by the selected response (explicit body)"
+				return v
+			}
+		}
 		names, set := ruleNames(viol)
 		if ex.ClientOut.Err == nil {
 			v.add(mkKey("accepted", "invalid-result-accepted-by-client", fmt.Sprintf("%s:%s:%s", siteClass(site), loc, kind), mergeTags(siteTags(sp, m, m.Result, site, false), ExplainResult(sp, m, c.Outcome.Result))),
